@@ -82,6 +82,14 @@ module.exports = mk({
       if (a.contentUnparsable) { v('modified-unparsable', 'reparse', 'modified content does not re-parse: ' + String(a.contentUnparsable).slice(0, 120)); return }
       if (hooks === 0) v('modified-without-hook', 'nohook', 'status modified but the content contains no hook call')
       if (!a.erasure || !a.erasure.prologue) v('modified-without-prologue', 'noprologue', 'status modified but the content has no `if (typeof _ddiast === \'undefined\')` prologue')
+      else {
+        // THE prologue of this result: it provides a pass-through for every hook the content calls (a prologue
+        // built for another configuration is not the prologue of this result)
+        const defined = new Set()
+        ;(function w (n) { if (Array.isArray(n)) { n.forEach(w); return } if (n === null || typeof n !== 'object') return; if (n.type === 'KeyValueProperty' && n.key && n.key.type === 'Identifier') defined.add(n.key.value); for (const k of Object.keys(n)) if (k[0] !== '$') w(n[k]) })(a.erasure.prologue)
+        const missing = Array.from(new Set(a.erasure.hooks.map((h) => h.name))).filter((n) => n !== '<computed>' && /^[A-Za-z_$][\w$]*$/.test(n) && !defined.has(n))
+        if (missing.length) v('modified-without-prologue', 'foreign-prologue', `status modified but the prologue in the content defines {${Array.from(defined).join(',')}} and not the hook(s) the content calls: ${missing.join(',')}`)
+      }
       const lines = resp.content.trimEnd().split('\n')
       const last = lines[lines.length - 1]
       if (!last.startsWith('//# sourceMappingURL=data:application/json;base64,')) v('modified-without-map', 'nomap', 'status modified but the last line is not an inline source map trailer: ' + last.slice(0, 80))
